@@ -185,10 +185,7 @@ def run(prop, tier, seed):
                        'events': t['ev'], 'verdict': v})
     # Deque and Index operations under the same enumeration, judged against DequeOps / IndexOps
     owl = obj_workloads()
-    if tier == 'quick':
-        rng.shuffle(owl)
-        keep = [w for w in owl if w[1] in ('deque-rotate', 'index-setitem')]
-        owl = keep + [w for w in owl if w not in keep][:4]
+    # (every workload in both tiers: they are short)
     ojobs = [(kind, name, init, maxlen, ops, 5 * 10 ** 6 + 1000 * i) for i, (kind, name, init, maxlen, ops) in enumerate(owl)]
     ores = pmap(_enum_obj, ojobs, procs=14)
     otr = [t for lst in ores for t in lst]
